@@ -15,6 +15,8 @@ Emits Gen/CApi.lean:
                         function that is classified so (fixpoint).  A `ctx.editor.<method>` that is in neither
                         reviewed list raises ExtractError (a new way into the editor must be reviewed);
   * iterFields / iterSites — the stored iterators of the context and every function that touches each;
+  * userphraseIterBorrows / kbIterFused — recognised shapes of the user-phrase iterator (owned Vec vs. borrow) and
+                        of the keyboard-type counter (fused or not);
   * heapGetters       — functions that register a heap result in OWNED, with the kind; every `into_raw` inside an
                         exported function must be wrapped in `owned_into_raw` (else ExtractError);
   * ownedKinds        — variants of `enum Owned`; freeShape / freeRemoves — recognised shapes of chewing_free's
@@ -103,8 +105,46 @@ def capi():
     iters = re.findall(r"pub\(crate\)\s+([a-z_]+_iter)\s*:", struct)
     if iters != ITER_FIELDS:
         raise ExtractError(f"stored iterators of ChewingContext changed: {iters} (reviewed: {ITER_FIELDS})")
-    m = re.search(r"userphrase_iter\s*:\s*Option<Peekable<Entries<'static>>>", struct)
-    uiter_borrows = 1 if m else 0
+    # userphrase_iter: reviewed shapes — 0 = the iterator OWNS a collected Vec (`vec::IntoIter<(Vec<Syllable>, Phrase)>`
+    # filled by `user_dict().entries().collect()` in chewing_userphrase_enumerate), 1 = the code before the F22 fix
+    # (`Entries<'static>` made from the raw context pointer: a borrow of the user dictionary)
+    enum_body = ws(fn_body(io, "chewing_userphrase_enumerate"))
+    if re.search(r"userphrase_iter\s*:\s*Option<Peekable<Entries<'static>>>", struct):
+        if "ctx.userphrase_iter=Some(ctx.editor.user_dict().entries().peekable());" not in enum_body:
+            raise ExtractError("chewing_userphrase_enumerate: unrecognised body for the borrowing iterator: " + enum_body)
+        uiter_borrows = 1
+    elif re.search(r"userphrase_iter\s*:\s*Option<Peekable<std::vec::IntoIter<\(Vec<Syllable>,\s*Phrase\)>>>", struct):
+        if ("letentries:Vec<_>=ctx.editor.user_dict().entries().collect();"
+                "ctx.userphrase_iter=Some(entries.into_iter().peekable());") not in enum_body:
+            raise ExtractError("chewing_userphrase_enumerate: unrecognised body for the owning iterator: " + enum_body)
+        uiter_borrows = 0
+    else:
+        raise ExtractError("userphrase_iter: unrecognised type (reviewed: Peekable<Entries<'static>> = borrows, "
+                           "Peekable<std::vec::IntoIter<(Vec<Syllable>, Phrase)>> = owns)")
+    # kbcompat_iter: a u8 counter `(0..).map_while(try_from)`; 1 = fused (stays at the end), 0 = the earlier code
+    # (MapWhile keeps pulling after its first None: ~256 reads overflow the counter)
+    kb_body = ws(fn_body(io, "chewing_kbtype_Enumerate"))
+    if "(0..).map_while(|id|KeyboardLayoutCompat::try_from(id).ok()).fuse()" in kb_body:
+        kb_fused = 1
+    elif "(0..).map_while(|id|KeyboardLayoutCompat::try_from(id).ok())" in kb_body:
+        kb_fused = 0
+    else:
+        raise ExtractError("chewing_kbtype_Enumerate: unrecognised iterator: " + kb_body)
+    # chewing_config_get_str("chewing.selection_keys"): one `char` per key collected into a String, then CString::new
+    # (1 = that shape: the text is valid UTF-8 whatever integers the legacy setters stored; anything else is unreviewed)
+    gs_body = ws(fn_body(io, "chewing_config_get_str"))
+    if ('"chewing.selection_keys"=>ctx.sel_keys.0.iter().map(|&key|char::from(keyasu8)).collect(),' in gs_body
+            and "letOk(cstring)=CString::new(string)else{returnERROR;};" in gs_body
+            and "owned_into_raw(Owned::CString,cstring.into_raw())" in gs_body):
+        selkeys_getter = 1
+    else:
+        raise ExtractError("chewing_config_get_str: the selection_keys arm / CString construction is not the reviewed "
+                           "shape (chars collected into a String, CString::new, ERROR on NUL): " + gs_body[:600])
+    # the other two collected iterators are made from owned, fused sources
+    if "Box::new(candidates.into_iter())asBox<dynIterator<Item=String>>" not in ws(fn_body(io, "chewing_cand_Enumerate")):
+        raise ExtractError("chewing_cand_Enumerate: the iterator is no longer Vec::into_iter of the collected candidates")
+    if "Box::new(ctx.editor.intervals().filter(|it|it.is_phrase))" not in ws(fn_body(io, "chewing_interval_Enumerate")):
+        raise ExtractError("chewing_interval_Enumerate: unrecognised iterator")
     for f in ("kbcompat_iter", "cand_iter", "interval_iter"):
         if not re.search(f + r"\s*:\s*Option<Peekable<Box<dyn\s+Iterator<Item\s*=\s*[A-Za-z]+>>>>", struct):
             raise ExtractError(f"{f}: no longer a Peekable<Box<dyn Iterator<Item = T>>> (owned, 'static by default)")
@@ -235,8 +275,14 @@ def capi():
     t += "/-- 1 = `chewing_free` removes the registry entry it releases (`map.remove`), 0 = it only looks it up (`map.get`) -/\n"
     t += f"def freeRemoves : Nat := {free_removes}\n\n"
     t += "def ownedKinds : List String := " + lean_list([lean_str(k) for k in kinds]) + "\n\n"
-    t += "/-- 1 = `userphrase_iter` is `Peekable<Entries<'static>>` (borrows the user dictionary) -/\n"
+    t += ("/-- 1 = `userphrase_iter` is `Peekable<Entries<'static>>` (borrows the user dictionary), 0 = it is a "
+          "`Peekable<vec::IntoIter<…>>` over the entries collected by `chewing_userphrase_enumerate` -/\n")
     t += f"def userphraseIterBorrows : Nat := {uiter_borrows}\n\n"
+    t += "/-- 1 = the keyboard-type counter of `chewing_kbtype_Enumerate` is fused (`.map_while(..).fuse()`), 0 = it is not -/\n"
+    t += f"def kbIterFused : Nat := {kb_fused}\n\n"
+    t += ("/-- 1 = `chewing_config_get_str(\"chewing.selection_keys\")` collects `char::from(key as u8)` into a String and "
+          "hands out `CString::new(string)` (ERROR on an interior NUL) -/\n")
+    t += f"def selKeysGetterShape : Nat := {selkeys_getter}\n\n"
     t += "/-- every `pub [unsafe] extern \"C\" fn` of io.rs: (name, ctx parameter 0 none / 1 *const / 2 *mut, `unsafe {` blocks) -/\n"
     t += "def exportedFns : List (String × Nat × Nat) := " + \
          lean_list([f"({lean_str(n)}, {k}, {u})" for n, k, u in rows], 2) + "\n\n"
